@@ -23,6 +23,9 @@ class _Ag(Agent):
 
     def act(self, time, round_no, step_no):
         self.model.log.append(("act", self.id, time))
+        plan = getattr(self.model, "deletion", None)
+        if plan is not None and plan[0] == self.id and plan[2] == time:
+            self.model.delete_agent(plan[1])
 
 
 class _DC(DataCollector):
@@ -134,3 +137,55 @@ def _single(stop: int, nsteps: int, npop: int) -> bool:
     post: _
     """
     return run_single_steps(stop, nsteps, npop) is None
+
+
+def run_with_deletion(stop, npop, deleter, victim, when):
+    """agent `deleter` deletes agent `victim` (itself or an agent created before it) from inside act() at time `when`.
+    Every agent that is live when its turn comes handles its events and acts exactly once per step; the victim takes no
+    part from the next step on."""
+    try:
+        m = new_model(0, stop, npop)
+        ids = [a.id for a in m.agents]
+        m.deletion = (ids[deleter], ids[victim], when)
+        m.run(show_progress_widget=False, collect_data=True)
+    except Exception as ex:  # noqa
+        return "run raised %r" % (ex,)
+    steps = round(1 / DT)
+    want = []
+    live = list(ids)
+    for r in range(0, stop + 1):
+        for k in range(steps):
+            t = r + k * DT
+            want.append(("begin", r, k, t))
+            turn = list(live)
+            for i in turn:
+                want.append(("handle", i, t))
+                want.append(("act", i, t))
+                if i == ids[deleter] and t == when and ids[victim] in live:
+                    live.remove(ids[victim])
+            want.append(("end", r, k, t))
+            want.append(("collect", tuple(live), t))
+    if m.log != want:
+        for i in range(max(len(want), len(m.log))):
+            a = m.log[i] if i < len(m.log) else None
+            b = want[i] if i < len(want) else None
+            if a != b:
+                return "call %d is %r, expected %r" % (i, a, b)
+    return None
+
+
+def _conc(x, lo, hi):
+    """a concrete copy of a small symbolic int (the engine forks on the comparisons); keeps floats and symbolic ints apart"""
+    for v in range(lo, hi + 1):
+        if x == v:
+            return v
+    return lo
+
+
+def _deletion(stop: int, npop: int, deleter: int, victim: int, whenstep: int) -> bool:
+    """
+    pre: 1 <= stop <= 2 and 2 <= npop <= 4 and 0 <= victim <= deleter < npop and 0 <= whenstep <= 2
+    post: _
+    """
+    stop, npop, deleter, victim, whenstep = _conc(stop, 1, 2), _conc(npop, 2, 4), _conc(deleter, 0, 3), _conc(victim, 0, 3), _conc(whenstep, 0, 2)
+    return run_with_deletion(stop, npop, deleter, victim, whenstep * DT) is None
